@@ -256,7 +256,38 @@ def run(chk):
         "dictionary tokenisation in props/c17.py (first token per line, comments dropped)",
         "table-level functions is_letter/lower/is_hyphen are read from the compiled table by harness/tbl.h and passed to the model as Section variables",
     ]
-    chk.assumptions = ["braille-mode lou_hyphenate is checked structurally only (C02 harness)"]
+    # braille mode (mode 1): the input is braille, the marks are mapped back from the text; whatever the lengths of text and
+    # braille are (contractions make the braille shorter, indicators longer) the call writes exactly inlen marks and a NUL
+    import safety
+    import trans
+    env_t = {"LOUIS_TABLEPATH": str(REPO / "tables")}
+    ht = common.build_harness("h_trans")
+    for tl in ("en-ueb-g2.ctb,hyph_en_US.dic", "en-us-g2.ctb,hyph_en_US.dic", "en-ueb-g1.ctb,hyph_en_US.dic", "de-g2.ctb,hyph_de_DE.dic"):
+        r = rng.fork(("braille", tl))
+        words = ["understanding", "Hyphenation", "children", "KNOWLEDGE", "everything", "Braille", "rather", "people", "Unterhaltung", "zwischen", "a", "IT"]
+        fl = [trans.case_line("T", 0, [ord(c) for c in r.choice(words)] if r.chance(0.8) else [ord(c) for c in r.choice(words) + " " + r.choice(words)], 80)
+              for _ in range(12 if tier == "quick" else 60)]
+        fr = trans.run_cases(ht, tl, fl, exact=1, env=env_t, timeout=300)
+        hl = []
+        for res in fr:
+            if res.crash or res.ret != 1 or res.outlen <= 0:
+                continue
+            br = res.out[:res.outlen]
+            hl.append((br, trans.case_line("H", 1, br, len(br) + 1)))
+        for (br, ln), res in zip(hl, trans.run_cases(ht, tl, [l for _, l in hl], exact=1, env=env_t, timeout=300)):
+            chk.count(("braille-mode", tl, tuple(br)), nontrivial=True)
+            chk.tally("braille_mode_structural")
+            bad = safety.classify(res)
+            if bad:
+                chk.violation(bad[0], "%s in braille-mode hyphenation with %s" % (bad[1], tl), dict(table_list=tl, case_line=ln))
+                continue
+            marks = res.out[:len(br) + 1]
+            if res.ret == 1 and (any(m not in (48, 49, 50) for m in marks[:len(br)]) or marks[len(br)] != 0):
+                chk.violation("braille-mode-shape", "braille-mode lou_hyphenate did not write exactly inlen marks from '0','1','2' and a NUL: %s (inlen %d)"
+                              % (marks, len(br)), dict(table_list=tl, case_line=ln, impl=res.raw))
+            else:
+                chk.cov["traces_validated_against_impl"] += 1
+    chk.assumptions = ["braille-mode lou_hyphenate is checked structurally only (shape of the marks, exactly sized array under ASan)"]
     if not prove["ok"]:
         if not chk.violations:
             chk.violation("proof", "Properties/C17.v no longer checks: %s" % prove["failed"][:5],
